@@ -20,6 +20,8 @@ pub struct UniBudget {
     pub anchored_per_task: u64,
     /// thorough tier: a quarter of the inputs uses larger task sets / parameters
     pub wide: bool,
+    /// one input in this many is a "late coincidence" task set (0: none)
+    pub coincidence_one_in: u64,
 }
 
 pub fn variants_of(prop: &str) -> &'static [Variant] {
@@ -163,13 +165,27 @@ pub struct UniShared<'a> {
 pub fn uni_item(sh: &UniShared, k: u64, acc: &mut Acc, note: &dyn Fn(&str)) {
     let mut rng = Rng::new(Rng::run_seed(sh.root_seed, sh.prop, k));
     let mut in_rng = rng.split("input");
-    let sw = TaskSetSwarm::random_wide(&mut in_rng, sh.budget.wide);
-    let mut ts = random_taskset(&mut in_rng, &sw);
+    // one input in `coincidence_one_in` is a long-busy-window task set whose decisive offset
+    // sits deep inside the search space
+    let one_in = std::env::var("RTASIM_DEBUG_COINCIDENCE_ONE_IN")
+        .ok()
+        .and_then(|v| v.parse().ok())
+        .unwrap_or(sh.budget.coincidence_one_in);
+    let coincidence = one_in > 0 && rng.split("coincidence").chance(1, one_in);
+    let mut ts = if coincidence {
+        acc.counters.inc("inputs_late_coincidence");
+        crate::gen::coincidence_taskset(&mut in_rng)
+    } else {
+        let sw = TaskSetSwarm::random_wide(&mut in_rng, sh.budget.wide);
+        random_taskset(&mut in_rng, &sw)
+    };
     let repr = rng.split("repr").below(5) as u8;
     // The divergence limit is drawn once the harness knows the synchronous busy window it
     // observed itself: huge limits are only combined with busy windows the simulation can
     // cover (a 10^5-tick busy window costs seconds of analysis time and cannot be simulated).
+    let tp = std::time::Instant::now();
     let pre_prep = prepare(&ts);
+    acc.counters.add("time_us.prepare", tp.elapsed().as_micros() as u64);
     if let Some(p) = &pre_prep {
         ts.limit = choose_limit(&mut rng.split("limit"), p.l_obs);
     }
@@ -186,7 +202,6 @@ pub fn uni_item(sh: &UniShared, k: u64, acc: &mut Acc, note: &dyn Fn(&str)) {
     );
     note(&desc);
     acc.counters.inc("inputs");
-    let tp = std::time::Instant::now();
     let prep = match pre_prep {
         Some(p) => p,
         None => {
@@ -194,7 +209,6 @@ pub fn uni_item(sh: &UniShared, k: u64, acc: &mut Acc, note: &dyn Fn(&str)) {
             return;
         }
     };
-    acc.counters.add("time_us.prepare", tp.elapsed().as_micros() as u64);
     sh.inputs_fp
         .insert(crate::rng::hash_str(&format!("{:?}", ts)));
     if prep.l_obs.is_none() {
@@ -241,7 +255,13 @@ pub fn uni_item(sh: &UniShared, k: u64, acc: &mut Acc, note: &dyn Fn(&str)) {
                 }
             }
         }
-        for _ in 0..sh.budget.schedules_per_variant {
+        // (long-busy-window inputs: thousands of jobs per schedule, a quarter of the random ones)
+        let n_random = if coincidence {
+            sh.budget.schedules_per_variant / 4
+        } else {
+            sh.budget.schedules_per_variant
+        };
+        for _ in 0..n_random {
             directives.push(None);
         }
         for (s, dir) in directives.iter().enumerate() {
@@ -318,6 +338,9 @@ fn run_one(
             }
         }
         for i in 0..n {
+            if crate::unisched::is_shifted_dense_prefix(&per_task[i], &prep.dense[i]) {
+                continue;
+            }
             if let Err(e) = prep.adm[i].validate(&per_task[i]) {
                 eprintln!(
                     "HARNESS-ERROR: generator produced an inadmissible release sequence for task \
@@ -746,6 +769,10 @@ pub fn run_uni_property(opt: &Options, prop: &'static str) -> i32 {
             },
             anchored_per_task: 12,
             wide: true,
+            coincidence_one_in: match prop {
+                "C03" => 15,
+                _ => 150,
+            },
         }
     } else {
         UniBudget {
@@ -760,6 +787,10 @@ pub fn run_uni_property(opt: &Options, prop: &'static str) -> i32 {
             },
             anchored_per_task: 4,
             wide: false,
+            coincidence_one_in: match prop {
+                "C03" => 15,
+                _ => 150,
+            },
         }
     };
     let all_fp = Distinct::new(30);
